@@ -2552,7 +2552,10 @@ impl Connection {
                 src_cid: rem_cid, ..
             } => {
                 if self.side.is_server() {
-                    return Err(TransportError::PROTOCOL_VIOLATION("client sent Retry").into());
+                    // Nothing authenticates such a packet: anyone who knows the connection ID
+                    // (or a single bit flipped in transit) can produce it, so it is dropped
+                    trace!("discarding Retry packet received by a server");
+                    return Ok(());
                 }
 
                 if self.total_authed_packets > 0
